@@ -8,12 +8,14 @@ B = subprocess.run("git -C /tmp/wt/fix rev-parse HEAD", shell=True, capture_outp
 def sh(c, cwd=None, env=None): return subprocess.run(c, shell=True, cwd=cwd, capture_output=True, text=True, env=env)
 if not os.path.isdir(W): sh(f"git -C /repo worktree add --detach {W} {B}")
 sh(f"git checkout -q -- . && git checkout -q --detach {B}", cwd=W)
-props = sys.argv[1:] or sorted(os.path.basename(os.path.dirname(os.path.dirname(os.path.dirname(p)))) for p in glob.glob("/tmp/wt/C*/_out/benign/b1"))
+B = subprocess.run("git -C /repo rev-parse HEAD", shell=True, capture_output=True, text=True).stdout.strip()
+sh(f"git checkout -q -- . && git checkout -q --detach {B}", cwd=W)
+props = sys.argv[1:] or sorted({os.path.basename(os.path.dirname(os.path.dirname(os.path.dirname(p)))) for p in glob.glob("/tmp/wt/C*/_out/benign/b1") + glob.glob("/tmp/wt2/C*/_out/benign2/b1")})
 res = {}
 for c in props:
-    for m in sorted(glob.glob(f"/tmp/wt/{c}/_out/benign/b*")):
+    for m in sorted(glob.glob(f"/tmp/wt/{c}/_out/benign/b*")) + sorted(glob.glob(f"/tmp/wt2/{c}/_out/benign2/b*")):
         if not os.path.exists(m + "/patch.diff"): continue
-        name = f"{c}-{os.path.basename(m)}"
+        name = f"{c}-{'r2' if 'benign2' in m else 'r1'}-{os.path.basename(m)}"
         r = sh(f"git apply {m}/patch.diff", cwd=W)
         if r.returncode != 0:
             res[name] = {"applies": False}; print(name, "DOES NOT APPLY"); continue
@@ -38,7 +40,7 @@ for v in res.values():
 for k, n_ in sorted(keys.items()): print("  FA", k, n_)
 
 # human-readable summary kept in /verif (the patches themselves are scratch material and are not kept)
-lines = ["# Behaviour-preserving refactorings vs. the checks", "", f"Base: /repo fixes head {B[:8]}. {n} refactorings written by independent sub-agents (4 per property, pinned suite unchanged for each):",
+lines = ["# Behaviour-preserving refactorings vs. the checks", "", f"Base: /repo head {B[:8]}. {n} refactorings written by independent sub-agents in two rounds (4 per property and round, pinned suite unchanged for each; round 2 was written after the rules had been generalised on round 1 and serves as held-out material):",
          f"**{clean} clean, {fa} with a false VIOLATION, {ae} with ANALYSIS-ERROR only** (exit 2 = the rule could not recognise the refactored shape and says so).", "",
          "| refactoring | non-zero checks (1 = VIOLATION, 2 = ANALYSIS-ERROR) |", "|---|---|"]
 for name, v in sorted(res.items()):
